@@ -217,12 +217,15 @@ def extract(work, modules, macos=False, big_arena=False, contracts=None, extra_f
         parent, dest, modline = T2_MODULES[m]
         with open(os.path.join(VERIF, "contracts", "kani", m)) as f:
             todo.append((parent, dest, modline, f.read()))
-    for name, (parent, dest, modline, text) in (extra_files or {}).items():
-        todo.append((parent, dest, modline, text))
+    ungated = {"verif_rt.rs"}
+    for name, ef in (extra_files or {}).items():
+        todo.append((ef["parent"], ef["dest"], ef["modline"], ef["text"]))
+        if not ef.get("gate", True):
+            ungated.add(ef["dest"])
     for parent, dest, modline, text in todo:
         wr(dest, text)
         t = rd(parent)
-        gate = "" if dest == "verif_rt.rs" else "#[cfg(kani)]\n"
+        gate = "" if dest in ungated else "#[cfg(kani)]\n"
         wr(parent, t.rstrip("\n") + "\n" + gate + modline + "\n")
         log.append({"rule": "T2", "file": parent, "added": modline, "module_file": dest})
 
